@@ -4,3 +4,13 @@ package subtle
 
 // VerifS2V exposes the unexported s2v (verification hook; build tag verif only).
 func (asc *AESSIV) VerifS2V(msg, ad []byte) []byte { return asc.s2v(msg, ad) }
+
+// VerifCtrCrypt exposes the unexported ctrCrypt (the CTR layer of AES-SIV: IV bits 31 and 63 are cleared
+// inside) on an arbitrary 16-byte siv (verification hook; build tag verif only).
+func (asc *AESSIV) VerifCtrCrypt(siv, in []byte) []byte {
+	out := make([]byte, len(in))
+	if err := asc.ctrCrypt(siv, in, out); err != nil {
+		panic(err)
+	}
+	return out
+}
